@@ -23,6 +23,13 @@
 (* Block contents are versions drawn from a counter, so that an index      *)
 (* re-used after a crash that lost an uncommitted append is told apart.    *)
 (*                                                                         *)
+(* Role = "writer": the log's owner (append, clear, make_read_only).        *)
+(* Role = "replica": a core without the secret key that applies proofs     *)
+(* (a block, an upgrade to the remote writer's current length, or both)    *)
+(* received from a writer that grows by itself (Grow); block i of the      *)
+(* remote log has version i + 1, and the roots of the tree of length L are *)
+(* the tree item RootId(L).                                                *)
+(*                                                                         *)
 (* The constant Mut selects the intended design ("none") or one deliberate *)
 (* deviation; each deviation must make TLC produce a counterexample        *)
 (* (non-vacuity, and regression scenarios for the crate).                  *)
@@ -36,6 +43,7 @@ CONSTANTS MaxLen,      \* blocks ever appended
           PageBits,    \* indices per bitfield page
           Cadence,     \* "code": flush on the first call of an instance, then every 4th; "free"
           TruncOnOpen, \* TRUE: open truncates the entries region to the cursor (as JavaScript does)
+          Role,        \* "writer" | "replica"
           Mut          \* design deviation, "none" for the intended protocol
 
 VARIABLES slot, cells, bfFile, treeFile, dataFile,   \* persistent
@@ -46,6 +54,12 @@ vars == <<slot, cells, bfFile, treeFile, dataFile, mem, pc, cur, abs, pend, ncal
           nextv, nextid, hist>>
 
 Blocks == 0..(MaxLen - 1)
+\* tree items: the nodes completed by block i (item i) and the roots of the tree of length L
+RootId(L) == MaxLen + L
+Items == Blocks \cup {RootId(L) : L \in 1..MaxLen}
+\* replica: the remote writer's log. nextv - 1 blocks exist so far; block i has version i + 1
+Remote == nextv - 1
+TruthV(i) == i + 1
 Pages == 0..((MaxLen - 1) \div PageBits)
 PageIdx(g) == {i \in Blocks : i \div PageBits = g}
 NoInst == [alive |-> FALSE]
@@ -111,6 +125,19 @@ Replay(st, es) ==
   ELSE LET e == Head(es) IN
        IF e.kind = "clear"
        THEN Replay([st EXCEPT !.held = @ \ (e.s..(e.e - 1)), !.contig = ContigDrop(@, e.s)], Tail(es))
+       ELSE IF e.kind = "apply"
+       THEN \* a verified proof: block e.from if e.n = 1, tree upgrade from length e.s to e.e if e.e # e.s.
+            \* The entry carries the nodes it needs (the block's and the new roots).
+            LET nh == IF e.n = 1 THEN st.held \cup {e.from} ELSE st.held
+                items == (IF e.n = 1 THEN {e.from} ELSE {}) \cup
+                         (IF e.e # e.s /\ Mut # "apply_no_roots" THEN {RootId(e.e)} ELSE {}) IN
+            Replay([st EXCEPT !.held = nh,
+                              !.contig = IF e.n = 1 THEN ContigSet(@, nh, e.from, 1) ELSE @,
+                              !.tlen = IF e.e # e.s THEN e.e ELSE @,
+                              !.nodes = [i \in Items |-> IF i = e.from /\ e.n = 1 THEN TruthV(i)
+                                                         ELSE IF i \in items /\ i = RootId(e.e) THEN e.e ELSE @[i]],
+                              !.unfl = @ \cup items],
+                   Tail(es))
        ELSE \* append: nodes, bitfield set, tree upgrade from e.from to e.from + e.n
             IF e.from < st.tlen
             THEN [st EXCEPT !.ok = FALSE, !.err = "stale entry replayed as a truncation"]
@@ -120,8 +147,8 @@ Replay(st, es) ==
                  Replay([st EXCEPT !.held = nh,
                                    !.contig = ContigSet(@, nh, e.from, e.n),
                                    !.tlen = e.from + e.n,
-                                   !.nodes = [i \in Blocks |-> IF i >= e.from /\ i < e.from + e.n
-                                                               THEN e.vs[i - e.from + 1] ELSE @[i]],
+                                   !.nodes = [i \in Items |-> IF i >= e.from /\ i < e.from + e.n
+                                                              THEN e.vs[i - e.from + 1] ELSE @[i]],
                                    !.unfl = @ \cup (e.from..(e.from + e.n - 1))],
                         Tail(es))
 
@@ -130,7 +157,10 @@ OpenRead ==
   ELSE LET b == Bits
            h == slot[HdrSlot(b)]
            es == Scan(cells, 0, CurBit(b))
-           st0 == [ok |-> (\A i \in 0..(h.tlen - 1) : treeFile[i] # 0),
+           \* the roots of the header's tree must be in the tree store: for the writer (which has
+           \* every node) modelled as all block items, for a replica as the root item of that length
+           st0 == [ok |-> IF Role = "replica" THEN h.tlen = 0 \/ treeFile[RootId(h.tlen)] # 0
+                          ELSE (\A i \in 0..(h.tlen - 1) : treeFile[i] # 0),
                    err |-> "tree root missing",
                    bits |-> b, tlen |-> h.tlen, contig |-> h.contig, sec |-> h.sec,
                    held |-> bfFile, nodes |-> treeFile, unfl |-> {},
@@ -147,13 +177,13 @@ AbsView(a) == [len |-> a.len, held |-> a.held, w |-> a.w,
 (* Initial state: a freshly created core, header in slot 1 (Oplog::fresh) *)
 
 Init ==
-  /\ slot = [s \in 1..2 |-> IF s = 1 THEN [st |-> "ok", bit |-> 0, tlen |-> 0, contig |-> 0, sec |-> TRUE]
+  /\ slot = [s \in 1..2 |-> IF s = 1 THEN [st |-> "ok", bit |-> 0, tlen |-> 0, contig |-> 0, sec |-> Role = "writer"]
                             ELSE NoSlot]
-  /\ cells = <<>> /\ bfFile = {} /\ treeFile = [i \in Blocks |-> 0] /\ dataFile = [i \in Blocks |-> 0]
-  /\ mem = [alive |-> TRUE, bits |-> <<0, 0>>, tlen |-> 0, contig |-> 0, sec |-> TRUE, held |-> {},
-            dirty |-> {}, unfl |-> {}, nodes |-> [i \in Blocks |-> 0], cursor |-> 0, skip |-> 0]
+  /\ cells = <<>> /\ bfFile = {} /\ treeFile = [i \in Items |-> 0] /\ dataFile = [i \in Blocks |-> 0]
+  /\ mem = [alive |-> TRUE, bits |-> <<0, 0>>, tlen |-> 0, contig |-> 0, sec |-> Role = "writer", held |-> {},
+            dirty |-> {}, unfl |-> {}, nodes |-> [i \in Items |-> 0], cursor |-> 0, skip |-> 0]
   /\ pc = "idle" /\ cur = [op |-> "none"]
-  /\ abs = [len |-> 0, held |-> {}, w |-> TRUE, cont |-> [i \in Blocks |-> 0], sealed |-> FALSE]
+  /\ abs = [len |-> 0, held |-> {}, w |-> Role = "writer", cont |-> [i \in Blocks |-> 0], sealed |-> FALSE]
   /\ pend = NoPend /\ ncalls = 0 /\ ncrash = 0 /\ ntorn = 0 /\ nextv = 1 /\ nextid = 1
   /\ hist = <<>>
 
@@ -168,7 +198,7 @@ FlushStart == IF Mut = "hdr_before_pages" THEN "f_hdr" ELSE "f_pages"
 
 \* ---- append_batch(n blocks) ----
 AppendBegin(n) ==
-  /\ Idle /\ mem.sec /\ n >= 1 /\ mem.tlen + n <= MaxLen
+  /\ Idle /\ Role = "writer" /\ mem.sec /\ n >= 1 /\ mem.tlen + n <= MaxLen
   /\ LET vs == [k \in 1..n |-> nextv + k - 1]
          after == [abs EXCEPT !.len = @ + n, !.held = @ \cup (abs.len..(abs.len + n - 1)),
                               !.cont = [i \in Blocks |-> IF i >= abs.len /\ i < abs.len + n
@@ -181,7 +211,7 @@ AppendBegin(n) ==
   /\ UNCHANGED <<pvars, mem, abs, ncrash, ntorn, nextid>>
 
 WData ==   \* W data @ byte_length
-  /\ pc = "a_data"
+  /\ pc = "a_data" /\ cur.op = "append"
   /\ dataFile' = [i \in Blocks |-> IF i >= mem.tlen /\ i < mem.tlen + cur.n
                                    THEN cur.vs[i - mem.tlen + 1] ELSE dataFile[i]]
   /\ pc' = IF Mut = "entry_before_data" THEN "a_commit" ELSE "a_entry"
@@ -192,7 +222,7 @@ AppendEntry == [id |-> nextid, bit |-> CurBit(mem.bits), kind |-> "append", from
                 n |-> cur.n, vs |-> cur.vs, s |-> 0, e |-> 0]
 
 WEntryAppend ==   \* W oplog entry @ 8192 + cursor : the commit point
-  /\ pc = "a_entry"
+  /\ pc = "a_entry" /\ cur.op = "append"
   /\ cells' = Overwrite(cells, mem.cursor, EntryCells(AppendEntry))
   /\ mem' = [mem EXCEPT !.cursor = @ + Sz(AppendEntry)]
   /\ nextid' = nextid + 1
@@ -201,13 +231,13 @@ WEntryAppend ==   \* W oplog entry @ 8192 + cursor : the commit point
   /\ cur' = [cur EXCEPT !.jc = Append(@, "entry")]
 
 CommitAppend ==   \* in-memory bitfield, contiguous length, tree (no storage operation)
-  /\ pc = "a_commit"
+  /\ pc = "a_commit" /\ cur.op = "append"
   /\ LET nh == mem.held \cup (mem.tlen..(mem.tlen + cur.n - 1))
          m1 == [mem EXCEPT !.held = nh,
                            !.dirty = @ \cup {i \div PageBits : i \in mem.tlen..(mem.tlen + cur.n - 1)},
                            !.contig = ContigSet(@, nh, mem.tlen, cur.n),
-                           !.nodes = [i \in Blocks |-> IF i >= mem.tlen /\ i < mem.tlen + cur.n
-                                                       THEN cur.vs[i - mem.tlen + 1] ELSE @[i]],
+                           !.nodes = [i \in Items |-> IF i >= mem.tlen /\ i < mem.tlen + cur.n
+                                                      THEN cur.vs[i - mem.tlen + 1] ELSE @[i]],
                            !.unfl = @ \cup (mem.tlen..(mem.tlen + cur.n - 1)),
                            !.tlen = @ + cur.n] IN
      IF Cadence = "code"
@@ -218,7 +248,7 @@ CommitAppend ==   \* in-memory bitfield, contiguous length, tree (no storage ope
 
 \* ---- clear(s, e) ----
 ClearBegin(s, e) ==
-  /\ Idle /\ s < e /\ s < mem.tlen /\ e <= MaxLen
+  /\ Idle /\ Role = "writer" /\ s < e /\ s < mem.tlen /\ e <= MaxLen
   /\ cur' = [op |-> "clear", s |-> s, e |-> e, mro |-> FALSE, jc |-> <<>>]
   /\ pend' = [some |-> TRUE, b |-> abs, a |-> [abs EXCEPT !.held = @ \ (s..(e - 1))]]
   /\ pc' = "c_entry" /\ ncalls' = ncalls + 1 /\ Ghost(<<"clear", s, e>>)
@@ -254,9 +284,69 @@ DData ==   \* D data hole
   /\ UNCHANGED <<slot, cells, bfFile, treeFile, abs, pend, ncalls, ncrash, ntorn, nextv, nextid, hist>>
   /\ cur' = [cur EXCEPT !.jc = Append(@, "c_del")]
 
+\* ---- replica: verify_and_apply_proof(block i and/or upgrade to the remote length) ----
+\* the remote writer appends n blocks (an environment step, not a call on this core)
+Grow(n) ==
+  /\ Idle /\ Role = "replica" /\ n >= 1 /\ Remote + n <= MaxLen
+  /\ nextv' = nextv + n /\ Ghost(<<"grow", n>>)
+  /\ UNCHANGED <<pvars, mem, pc, cur, abs, pend, ncalls, ncrash, ntorn, nextid>>
+
+ApplyBegin(hasblk, i, up) ==
+  /\ Idle /\ Role = "replica" /\ (hasblk \/ up)
+  /\ up => Remote > mem.tlen
+  /\ LET nl == IF up THEN Remote ELSE mem.tlen IN
+     /\ hasblk => i < nl /\ i \notin mem.held
+     /\ ~hasblk => i = 0
+     /\ cur' = [op |-> "apply", hasblk |-> hasblk, blk |-> i, ol |-> mem.tlen, nl |-> nl, mro |-> FALSE, jc |-> <<>>]
+     /\ pend' = [some |-> TRUE, b |-> abs,
+                 a |-> [abs EXCEPT !.len = nl,
+                                   !.held = IF hasblk THEN @ \cup {i} ELSE @,
+                                   !.cont = IF hasblk THEN [@ EXCEPT ![i] = TruthV(i)] ELSE @]]
+     /\ pc' = IF ~hasblk \/ Mut = "entry_before_data" THEN "a_entry" ELSE "a_data"
+  /\ ncalls' = ncalls + 1 /\ Ghost(<<"apply", IF hasblk THEN 1 ELSE 0, i, IF up THEN 1 ELSE 0>>)
+  /\ UNCHANGED <<pvars, mem, abs, ncrash, ntorn, nextv, nextid>>
+
+WDataApply ==   \* W data @ the block's byte offset in the verified tree
+  /\ pc = "a_data" /\ cur.op = "apply"
+  /\ dataFile' = [dataFile EXCEPT ![cur.blk] = TruthV(cur.blk)]
+  /\ pc' = IF Mut = "entry_before_data" THEN "a_commit" ELSE "a_entry"
+  /\ UNCHANGED <<slot, cells, bfFile, treeFile, mem, abs, pend, ncalls, ncrash, ntorn, nextv, nextid, hist>>
+  /\ cur' = [cur EXCEPT !.jc = Append(@, "a_data")]
+
+\* from/n: the block; s/e: tree length before and after (equal: no upgrade)
+ApplyEntry == [id |-> nextid, bit |-> CurBit(mem.bits), kind |-> "apply", from |-> cur.blk,
+               n |-> IF cur.hasblk THEN 1 ELSE 0, vs |-> <<>>, s |-> cur.ol, e |-> cur.nl]
+
+WEntryApply ==   \* W oplog entry (nodes, upgrade, bitfield update): the commit point
+  /\ pc = "a_entry" /\ cur.op = "apply"
+  /\ cells' = Overwrite(cells, mem.cursor, EntryCells(ApplyEntry))
+  /\ mem' = [mem EXCEPT !.cursor = @ + Sz(ApplyEntry)]
+  /\ nextid' = nextid + 1
+  /\ pc' = IF cur.hasblk /\ Mut = "entry_before_data" THEN "a_data" ELSE "a_commit"
+  /\ UNCHANGED <<slot, bfFile, treeFile, dataFile, abs, pend, ncalls, ncrash, ntorn, nextv, hist>>
+  /\ cur' = [cur EXCEPT !.jc = Append(@, "entry")]
+
+CommitApply ==   \* in-memory bitfield, contiguous length, tree
+  /\ pc = "a_commit" /\ cur.op = "apply"
+  /\ LET nh == IF cur.hasblk THEN mem.held \cup {cur.blk} ELSE mem.held
+         items == (IF cur.hasblk THEN {cur.blk} ELSE {}) \cup (IF cur.nl # cur.ol THEN {RootId(cur.nl)} ELSE {})
+         m1 == [mem EXCEPT !.held = nh,
+                           !.dirty = IF cur.hasblk THEN @ \cup {cur.blk \div PageBits} ELSE @,
+                           !.contig = IF cur.hasblk THEN ContigSet(@, nh, cur.blk, 1) ELSE @,
+                           !.nodes = [i \in Items |-> IF i = cur.blk /\ cur.hasblk THEN TruthV(i)
+                                                      ELSE IF i = RootId(cur.nl) /\ cur.nl # cur.ol THEN cur.nl
+                                                      ELSE @[i]],
+                           !.unfl = @ \cup items,
+                           !.tlen = cur.nl] IN
+     IF Cadence = "code"
+     THEN IF m1.skip = 0 THEN pc' = FlushStart /\ mem' = [m1 EXCEPT !.skip = 3]
+          ELSE pc' = "ret" /\ mem' = [m1 EXCEPT !.skip = @ - 1]
+     ELSE pc' \in {FlushStart, "ret"} /\ mem' = m1
+  /\ UNCHANGED <<pvars, cur, abs, pend, ncalls, ncrash, ntorn, nextv, nextid, hist>>
+
 \* ---- make_read_only ----
 MroBegin ==
-  /\ Idle /\ mem.sec
+  /\ Idle /\ Role = "writer" /\ mem.sec
   /\ cur' = [op |-> "mro", mro |-> TRUE, jc |-> <<>>]
   /\ pend' = [some |-> TRUE, b |-> abs, a |-> [abs EXCEPT !.w = FALSE]]
   /\ mem' = [mem EXCEPT !.sec = FALSE]
@@ -349,7 +439,11 @@ TornEntry(e) ==
 
 TornCrash ==
   /\ mem.alive /\ ncrash < MaxCrashes /\ ntorn < MaxTorn
-  /\ \/ /\ pc = "a_entry" /\ TornEntry(AppendEntry) /\ UNCHANGED <<slot, bfFile, treeFile, dataFile>>
+  /\ \/ /\ pc = "a_entry" /\ cur.op = "append" /\ TornEntry(AppendEntry) /\ UNCHANGED <<slot, bfFile, treeFile, dataFile>>
+     \/ /\ pc = "a_entry" /\ cur.op = "apply" /\ TornEntry(ApplyEntry) /\ UNCHANGED <<slot, bfFile, treeFile, dataFile>>
+     \/ /\ pc = "a_data" /\ cur.op = "apply"     \* the block arrives as garbage
+        /\ dataFile' = [dataFile EXCEPT ![cur.blk] = 0]
+        /\ UNCHANGED <<slot, cells, bfFile, treeFile>>
      \/ /\ pc = "c_entry" /\ TornEntry(ClearEntry) /\ UNCHANGED <<slot, bfFile, treeFile, dataFile>>
      \/ /\ pc \in {"f_hdr", "f_hdr2"}
         /\ slot' = [slot EXCEPT ![NextSlot(mem.bits)] = [NoSlot EXCEPT !.st = "bad"]]
@@ -361,7 +455,7 @@ TornCrash ==
      \/ /\ pc = "f_nodes"
         /\ \E i \in mem.unfl : treeFile' = [treeFile EXCEPT ![i] = 0]
         /\ UNCHANGED <<slot, cells, bfFile, dataFile>>
-     \/ /\ pc = "a_data"
+     \/ /\ pc = "a_data" /\ cur.op = "append"
         /\ \E c \in 0..(cur.n - 1) :   \* c blocks complete, the next one garbage
              dataFile' = [i \in Blocks |-> IF i >= mem.tlen /\ i < mem.tlen + c THEN cur.vs[i - mem.tlen + 1]
                                            ELSE IF i = mem.tlen + c THEN 0 ELSE dataFile[i]]
@@ -391,12 +485,15 @@ Close ==
 Next ==
   \/ \E n \in 1..2 : AppendBegin(n)
   \/ WData \/ WEntryAppend \/ CommitAppend
+  \/ \E n \in 1..2 : Grow(n)
+  \/ \E hb \in BOOLEAN, i \in Blocks, up \in BOOLEAN : ApplyBegin(hb, i, up)
+  \/ WDataApply \/ WEntryApply \/ CommitApply
   \/ \E s \in Blocks, e \in 1..MaxLen : ClearBegin(s, e)
   \/ WEntryClear \/ DData
   \/ MroBegin
   \/ \E g \in Pages : WPage(g)
   \/ PagesDone \/ NodesDone
-  \/ \E i \in Blocks : WNode(i)
+  \/ \E i \in Items : WNode(i)
   \/ WHeader1 \/ WHeader2 \/ TOplog1 \/ TOplog2
   \/ Return \/ Crash \/ TornCrash \/ Open \/ Close
 
@@ -422,7 +519,11 @@ MemView ==
      /\ mem.tlen = abs.len /\ mem.held = abs.held /\ mem.sec = abs.w
      /\ mem.contig = MinMissing(abs.held)
      /\ \A i \in abs.held : dataFile[i] = abs.cont[i]
-     /\ \A i \in 0..(abs.len - 1) : mem.nodes[i] = abs.cont[i] \/ (i \notin abs.held /\ mem.nodes[i] # 0)
+     /\ IF Role = "writer"
+        THEN \A i \in 0..(abs.len - 1) : mem.nodes[i] = abs.cont[i] \/ (i \notin abs.held /\ mem.nodes[i] # 0)
+        ELSE /\ \A i \in abs.held : mem.nodes[i] = abs.cont[i] /\ abs.cont[i] = TruthV(i)
+             /\ abs.len = 0 \/ mem.nodes[RootId(abs.len)] = abs.len
+             /\ abs.len <= Remote
 
 \* every tree node on disk or in memory belongs to the committed log (C05 at the design level)
 TreeSound == \A i \in Blocks : i < abs.len /\ treeFile[i] # 0 /\ i \in abs.held => treeFile[i] = abs.cont[i]
@@ -431,7 +532,8 @@ TreeSound == \A i \in Blocks : i < abs.len /\ treeFile[i] # 0 /\ i \in abs.held 
 HeaderBitProtocol ==
   (Valid(1) \/ Valid(2)) =>
     LET b == Bits es == Scan(cells, 0, CurBit(b)) h == slot[HdrSlot(b)] IN
-    \A k \in 1..Len(es) : es[k].kind = "append" => es[k].from >= h.tlen
+    \A k \in 1..Len(es) : /\ (es[k].kind = "append" => es[k].from >= h.tlen)
+                           /\ (es[k].kind = "apply" => es[k].s >= h.tlen)
 
 \* C12: once make_read_only has returned, no slot holds the secret (entries never carry it)
 KeyHygiene ==
@@ -440,7 +542,15 @@ KeyHygiene ==
      /\ \A s \in 1..2 : ~slot[s].sec
 
 \* the storage operations of every call stay inside the envelope of StoreOrder
-JournalInEnvelope == (pc = "ret" /\ Mut = "none") => CallOrderOK(cur.op, TRUE, cur.jc)
+JournalInEnvelope == (pc = "ret" /\ Mut = "none") =>
+                       CallOrderOK(IF cur.op = "apply" THEN "proof" ELSE cur.op, TRUE, cur.jc)
+
+\* whatever is recovered can be served: every held block has its tree nodes, and the tree of the
+\* recovered length has its roots (a replica needs them to verify the next proof)
+RecoverNodes ==
+  LET r == OpenRead IN
+  r.ok => /\ (\A i \in r.held \cap (0..(r.tlen - 1)) : r.nodes[i] # 0)
+          /\ (Role = "replica" => (r.tlen = 0 \/ r.nodes[RootId(r.tlen)] = r.tlen))
 
 TypeOK ==
   /\ pc \in {"idle", "closed", "ret", "a_data", "a_entry", "a_commit", "c_entry", "c_del",
